@@ -50,6 +50,57 @@ int main(void) {
 }
 """
 
+# behavioural constant (C18More): does hmm_vit_eval_anytopo floor the entry state at WORST_SCORE like the other
+# states?  Evaluated by RUNNING the current src/hmm.c (included into a probe with stub allocators) on a 4-state HMM
+# whose entry state holds WORST_SCORE and whose senone scores are 1000: the floor is there iff the new entry score is
+# still >= WORST_SCORE - 255 (one transition below the floor), without it it is WORST_SCORE - 1010.
+PROBE = r"""
+#include <stdio.h>
+#include <stdlib.h>
+#include <stdarg.h>
+#include <hmm.c>
+void *__ckd_calloc__(size_t n, size_t s, const char *f, int l) { (void)f; (void)l; return calloc(n ? n : 1, s ? s : 1); }
+void ckd_free(void *p) { free(p); }
+void err_msg(err_lvl_t lvl, const char *path, long ln, const char *fmt, ...) { (void)lvl; (void)path; (void)ln; (void)fmt; }
+int main(void) {
+  uint8 row[4][5] = {{10,20,255,255,255},{255,10,20,255,255},{255,255,10,20,255},{255,255,255,10,20}};
+  uint8 *rows[4] = { row[0], row[1], row[2], row[3] };
+  uint8 **tp[1] = { rows };
+  uint16 seq[4] = {0,1,2,3}; uint16 *sseq[1] = { seq };
+  int16 senscore[4] = {1000,1000,1000,1000};
+  hmm_context_t *ctx = hmm_context_init(4, (uint8 **const *)tp, senscore, sseq);
+  hmm_t h;
+  hmm_init(ctx, &h, 0, 0, 0);
+  hmm_vit_eval(&h);
+  printf("anytopoClamp0 %%d\n", hmm_in_score(&h) >= WORST_SCORE - 255 ? 1 : 0);
+  return 0;
+}
+"""
+
+# literal of the renormalisation test of state_align_search_step (not a macro): read from the source text
+RENORM_RE = r"best_score\s*-\s*(0[xX][0-9a-fA-F]+|\d+)\s*\)\s*WORSE_THAN\s+WORST_SCORE"
+
+
+def extra_consts():
+    import re
+    with tempfile.TemporaryDirectory() as td:
+        c = os.path.join(td, "p.c")
+        exe = os.path.join(td, "p")
+        open(c, "w").write(PROBE.replace("%%", "%"))
+        r = subprocess.run(["gcc", "-w", "-DHAVE_CONFIG_H", "-I" + str(vlib.HARNESS / "config"),
+                            "-I" + str(vlib.REPO / "include"), "-I" + str(vlib.REPO / "src"), c, "-o", exe],
+                           stdout=subprocess.PIPE, stderr=subprocess.STDOUT, text=True)
+        if r.returncode != 0:
+            raise vlib.BuildError("C18 anytopo probe does not compile:\n" + r.stdout[-1500:])
+        out = subprocess.run([exe], stdout=subprocess.PIPE, text=True).stdout
+    clamp0 = int(out.split()[1])
+    src = (vlib.REPO / "src" / "state_align_search.c").read_text()
+    m = re.search(RENORM_RE, src)
+    if not m:
+        raise vlib.BuildError("C18: renormalisation test of state_align_search_step not found "
+                              "(pattern `best_score - <literal>) WORSE_THAN WORST_SCORE`)")
+    return clamp0, int(m.group(1), 0)
+
 
 def gen_range_consts():
     body = "\n".join(f'  printf("%s %%lld\\n", {e});' % n for n, e, _ in EXPRS)
@@ -71,6 +122,11 @@ def gen_range_consts():
     for n, _, ty in EXPRS:
         v = int(vals[n])
         lines.append(f"def {n} : {ty} := {v}" if ty == "Nat" or v >= 0 else f"def {n} : {ty} := {v}")
+    clamp0, margin = extra_consts()
+    lines.append("-- literal of the renormalisation test in state_align_search_step (src/state_align_search.c)")
+    lines.append(f"def alignRenormMargin : Int := {margin}")
+    lines.append("-- behaviour of hmm_vit_eval_anytopo on the entry state, probed by running src/hmm.c (see gen_ranges.py)")
+    lines.append(f"def anytopoClamp0 : Bool := {'true' if clamp0 else 'false'}")
     lines.append("end SSVerif.Generated.Ranges")
     path = GEN / "RangeConsts.lean"
     text = "\n".join(lines) + "\n"
